@@ -255,6 +255,23 @@ func genG09(repo string, w *Out) error {
 		"default:", "err = errors.New("); err != nil {
 		return err
 	}
+	// connection-level frames are written directly, under destMu (the writer goroutine writes to the same framer)
+	for _, c := range []struct{ label, call string }{
+		{"*http2.PingFrame", "err = r.dest.WritePing(f.IsAck(), f.Data)"},
+		{"*http2.GoAwayFrame", "err = r.dest.WriteGoAway(f.LastStreamID, f.ErrCode, f.DebugData())"},
+	} {
+		body, err := rf.CaseBody(pfd.Body, c.label)
+		if err != nil {
+			return err
+		}
+		if err := g09Exact("processFrame case "+c.label, rf, &ast.BlockStmt{List: body}, "r.destMu.Lock()", c.call, "r.destMu.Unlock()"); err != nil {
+			return err
+		}
+	}
+	if err := g09Need("processFrame (SETTINGS under destMu)", pb, "r.destMu.Lock() err = r.dest.WriteSettingsAck() r.destMu.Unlock()",
+		"r.destMu.Lock() err = r.dest.WriteSettings(settings...) r.destMu.Unlock()"); err != nil {
+		return err
+	}
 	// is every setting validated before it is applied?
 	validated := false
 	ast.Inspect(pfd.Body, func(x ast.Node) bool {
@@ -530,6 +547,21 @@ func genG09(repo string, w *Out) error {
 	if err := g09Need("forwardPreface", fb, "preface := make([]byte, len(connectionPreface))", "bytes.Equal(preface, connectionPreface)", "server.Write(preface)"); err != nil {
 		return err
 	}
+	// ---- the hand-off from the MITM path: the read deadline armed for the TLS handshake must be cleared before
+	// the connection is given to h2.Config.Proxy (the h2 relay never re-arms or clears it)
+	mf, err := Parse(repo, "internal/martian/proxy_conn.go")
+	if err != nil {
+		return err
+	}
+	hmb, _, err := g09Body(mf, "proxyConn.handleMITM")
+	if err != nil {
+		return err
+	}
+	if err := g09Need("handleMITM", hmb, "p.brw.Peek(1)", ".Proxy("); err != nil {
+		return err
+	}
+	cleared := g09Need("handleMITM", hmb, "p.brw.Peek(1)", "p.conn.SetReadDeadline(time.Time{})", ".Proxy(") == nil
+	w.DefBool("mitm_deadline_cleared_before_h2", cleared)
 	pe, err := hf.ValueSpec("connectionPreface")
 	if err != nil {
 		return err
